@@ -90,6 +90,7 @@ var hcCallRe = regexp.MustCompile(`\b([A-Za-z_]\w*)\s*\(`)
 var hcRegRe = regexp.MustCompile(`luaL_Reg\s+(\w+)\s*\[\s*\]\s*=\s*\{`)
 var hcEntRe = regexp.MustCompile(`\{\s*"([^"]*)"\s*,\s*(\w+)\s*\}`)
 var hcPtrRe = regexp.MustCompile(`\b(lj_internal_\w+)\s*=\s*(\w+)\s*;`)
+var hcIfRe = regexp.MustCompile(`\bif\s*\(`)
 
 func hcFunctions(file, blank string) []*HCFunc {
 	var out []*HCFunc
